@@ -1,8 +1,11 @@
 package fasthttp
 
 import (
+	"bufio"
 	"errors"
 	"io"
+	"runtime"
+	"time"
 )
 
 // C34 — body streams deliver exact bytes and are closed exactly once.
@@ -85,4 +88,58 @@ func vhC34ResponseStream() {
 		vAssert("peer-receives-exactly-the-stream", ok && len(rs) == 1 && rs[0].status == 200 && string(rs[0].body) == string(data))
 	}
 	vAssert("connection-closed", c.closed == 1)
+}
+
+// vhC34CompressedStream: the stream wrapper used for on-the-fly compression
+// (newCompressedBodyStream: a goroutine copies the original stream through a
+// codec into a pipe) with an identity codec: whether the consumer reads
+// everything, a part, or nothing before closing — and closes once or twice,
+// before or after the copying goroutine is done — the original stream is
+// closed exactly once, and a consumer that reads to the end gets its bytes.
+func vhC34CompressedStream() {
+	data := c05Sym("data", vParam("dataLen", 4))
+	orig := &c34Stream{data: data}
+	if vBool("byteAtATime") {
+		orig.chunk = 1
+	}
+	codec := func(sw *bufio.Writer, r io.Reader, level int) error {
+		var buf [2]byte
+		for {
+			n, err := r.Read(buf[:])
+			if n > 0 {
+				if _, werr := sw.Write(buf[:n]); werr != nil {
+					return werr
+				}
+				if werr := sw.Flush(); werr != nil {
+					return werr
+				}
+			}
+			vYield() // the consumer may act between two pieces
+			if err != nil {
+				return nil
+			}
+		}
+	}
+	s := newCompressedBodyStream(orig, 1, codec)
+	var got []byte
+	switch vChoose("consumer", 3) {
+	case 0: // discard at once
+	case 1: // read one byte, then discard
+		var b [1]byte
+		n, _ := s.Read(b[:])
+		got = append(got, b[:n]...)
+	case 2: // read to the end
+		got, _ = io.ReadAll(s)
+		vAssert("consumer-gets-the-stream-bytes", string(got) == string(data))
+	}
+	s.Close()
+	if vBool("closeTwice") {
+		s.Close()
+	}
+	for i := 0; i < 16; i++ {
+		runtime.Gosched() // let the copying goroutine finish
+	}
+	time.Sleep(10 * time.Millisecond)
+	vAssert("original-stream-closed-exactly-once", orig.closed == 1)
+	vAssert("prefix-read-is-a-prefix", len(got) <= len(data) && string(got) == string(data[:len(got)]))
 }
